@@ -40,7 +40,19 @@ func c03Snap(s *h.Sim) c03Triple {
 }
 
 // c03Consistent checks that seat map, player list and seat manager describe the same partial bijection.
+// c03Consistent compares the three views. The table and the seat manager are read one after the other; an engine
+// goroutine that is seating somebody in at that very moment (auto seat-in callback: table flag first, seat manager
+// second) can make one read older than the other, so a seated-in flag mismatch only counts if it persists.
 func c03Consistent(s *h.Sim, m *c03Model) (string, string) {
+	sig, det := c03ConsistentOnce(s, m)
+	for try := 0; try < 4 && sig == "C03/seated-in-flag-differs"; try++ {
+		time.Sleep(time.Millisecond)
+		sig, det = c03ConsistentOnce(s, m)
+	}
+	return sig, det
+}
+
+func c03ConsistentOnce(s *h.Sim, m *c03Model) (string, string) {
 	t := s.Table()
 	st := s.SM()
 	n := t.Meta.TableMaxSeatCount
